@@ -1,0 +1,18 @@
+//go:build verif
+
+package cursor
+
+import (
+	"github.com/logrange/logrange/pkg/lql"
+	"github.com/logrange/logrange/pkg/model"
+)
+
+// NewFIteratorVerif gives the verification harness (/verif, property C05) the filtering iterator over an arbitrary
+// model.Iterator: newFIterator with the WHERE expression and the optional time range.
+func NewFIteratorVerif(it model.Iterator, wExp *lql.Expression, timeRange *model.TimeRange) (model.Iterator, error) {
+	fit, err := newFIterator(it, wExp, timeRange)
+	if err != nil {
+		return nil, err
+	}
+	return fit, nil
+}
